@@ -538,6 +538,10 @@ func c15RunPlan(c *core.Case, o *core.Outcome) {
 		if k == ns-1 || r.IntN(3) == 0 {
 			plan[k].keys[preKey] = fmt.Sprintf("set-by-%d", k)
 		}
+		if r.IntN(2) == 0 {
+			// a parameter whose value is the empty string is still a parameter: set, and empty
+			plan[k].keys[fmt.Sprintf("VERIF_EMPTY_%d", k%2)] = ""
+		}
 		total += plan[k].dur
 	}
 	maxDur := total + 5*time.Second
@@ -585,8 +589,8 @@ func c15RunPlan(c *core.Case, o *core.Outcome) {
 			evalStages = append(evalStages, i)
 			mu.Unlock()
 			for k, v := range plan[i].keys {
-				if got := os.Getenv(k); got != v {
-					note("during rate evaluation of stage %d parameter %s=%q, expected %q", i, k, got, v)
+				if got, set := os.LookupEnv(k); got != v || !set {
+					note("during rate evaluation of stage %d parameter %s=%q (set=%v), expected %q", i, k, got, set, v)
 				}
 			}
 			for j := range plan {
@@ -612,6 +616,28 @@ func c15RunPlan(c *core.Case, o *core.Outcome) {
 			bodyReads.Add(1)
 			if len(set) > 1 {
 				note("a body saw the parameters of stages %v set at once", set)
+			}
+			if len(set) == 1 && plan[set[0]].users {
+				// a users stage exports all its parameters before its bodies run; a mismatch counts only when a
+				// second look 2 ms later still finds the same stage current (the stage may be ending right now)
+				j := set[0]
+				look := func() string {
+					if _, ok := os.LookupEnv(fmt.Sprintf("VERIF_STAGE_%d", j)); !ok {
+						return ""
+					}
+					for k, v := range plan[j].keys {
+						if got, ok := os.LookupEnv(k); !ok || got != v {
+							return fmt.Sprintf("a body of users stage %d saw parameter %s=%q (set=%v), expected %q", j, k, got, ok, v)
+						}
+					}
+					return ""
+				}
+				if look() != "" {
+					time.Sleep(2 * time.Millisecond)
+					if bad := look(); bad != "" {
+						note("%s", bad)
+					}
+				}
 			}
 			mu.Lock()
 			for _, j := range set {
